@@ -402,7 +402,10 @@ fn run_crafted_v6(c: &CraftedV6) -> Outcome {
 }
 
 pub fn check(ctx: &Ctx) {
-    let quick = ctx.tier == Tier::Quick;
+    // the former thorough bounds take seconds: they are the quick tier now; `deep` = thorough
+    let quick = false;
+    #[allow(unused_variables)]
+    let deep = ctx.tier == Tier::Thorough;
     let keys: Vec<(KeyKind, Vec<u8>)> = vec![
         (KeyKind::Ed25519V4, vec![0, 1, 2, 3, 4]),
         (KeyKind::Ed25519V6, vec![0, 1, 2, 3, 4]),
